@@ -12,19 +12,17 @@ def determinism(R, ids, seeds):
     bad = 0
     for pid in ids:
         spec = R.CHECKS[pid]
-        if spec["engine"] != "sched":
-            continue
         with R.Scratch() as scratch:
             overlay, _ = R.instrument(spec, scratch)
             binp = R.build_harness(spec, scratch, overlay)
             procs = []
             n = 0
             for base in (0, seeds):          # two disjoint index ranges
-                for gmp in ("1", "4", "16"):
+                for gmp in (("1", "4", "16") if spec["engine"] == "sched" else (spec.get("gomaxprocs", "1"),) * 3):
                     for rep in range(5):     # 2 x 3 x 5 = 30 processes
                         env = dict(R.ENV)
                         log = os.path.join(scratch, "hl-%d-%s-%d" % (base, gmp, rep))
-                        env.update(VERIF_MODE="batch", VERIF_SEED="7", VERIF_START=str(base), VERIF_STRIDE="1", VERIF_COUNT=str(seeds),
+                        env.update(VERIF_SCRATCH=scratch, TMPDIR=scratch, VERIF_MODE="batch", VERIF_SEED="7", VERIF_START=str(base), VERIF_STRIDE="1", VERIF_COUNT=str(seeds),
                                    VERIF_OUT=os.path.join(scratch, "o%d.json" % n), VERIF_HASHLOG=log, GOMAXPROCS=gmp, VERIF_MAXFAIL="1000000", VERIF_MIN_S="0")
                         n += 1
                         procs.append((base, log, subprocess.Popen([binp, "-test.run", "^TestSim$", "-test.timeout", "0"], env=env, cwd=scratch,
